@@ -23,8 +23,11 @@ CorrMatches(n, x, y, robs, r2obs) ==
        /\ Abs(r2obs - ToQ6(c * c, vx * vy)) <= 4
        /\ (c = 0 => Abs(robs) <= 2)
        /\ (c # 0 => Sgn(robs) = Sgn(c))
-(* products must stay below 2^31 *)
+(* products must stay below 2^31, and the denominator within RatOK's bound (ToQ6's long       *)
+(* division multiplies remainders by 10): beyond that the clause is skipped, not failed - with *)
+(* 12..24-node inputs (seed round 7) vx * vy passes 2 * 10^8 and CorrMatches' RatOK conjunct   *)
+(* used to fail on the unchanged code, a false alarm of the machinery                          *)
 CorrDomainOK(n, x, y) ==
   LET c == CovN(n, x, y)  vx == VarN(n, x)  vy == VarN(n, y) IN
-  Abs(c) < 46000 /\ vx < 46000 /\ vy < 46000
+  Abs(c) < 46000 /\ vx < 46000 /\ vy < 46000 /\ (vx = 0 \/ vy = 0 \/ RatOK(c * c, vx * vy))
 =============================================================================
